@@ -62,6 +62,8 @@ def cases(group):
                         if spec.startswith("pre") and not isinstance(Yf[0], list):
                             continue
                         yield dict(X=X, Y=Yf, mixing=mixing, space=space, reg=spec)
+                        if group["label"].startswith("G") and mixing == 0.5 and isinstance(Yf[0], list):
+                            yield dict(X=X, Y=Yf, mixing=mixing, space=space, reg=spec, prefit=True)
 
 
 def check(case):
@@ -87,7 +89,7 @@ def check(case):
     nested_pairs = 0
     prev_lx = prev_ly = None
     for k in range(1, min(n, m) + 1):
-        est, exc = pcov.fit_pcovr(X, Y, mixing, k, spec, space, "full")
+        est, exc = pcov.fit_pcovr(X, Y, mixing, k, spec, space, "full", prefit=bool(case.get("prefit")))
         r.transitions += 1
         if exc is not None:
             r.fail("crash:%s" % type(exc).__name__, "k=%d: %r" % (k, exc))
